@@ -259,10 +259,16 @@ fn c03_case(ctx: &Ctx, case: u64, acc: &mut Acc) -> Verdict {
         pg: if r.chance(1, 2) { Some((p / 2, 2)) } else { None },
     };
     let sim_seed = r.next();
-    let Some(mut f) = formed(sim_seed, n, &cfg, Renew::None, (1, R / 4), acc)? else {
+    // latency regimes as in C04: below R/4 only Ping/Ack flow while nobody has failed; below 0.9R (P = 3R) the
+    // direct Ack still always arrives before the next round, but the indirect stage runs routinely and probes
+    // of live members complete through ForwardedAck - the failure must be detected all the same
+    let wide = r.chance(1, 2);
+    let lat = if wide { (1, R * 9 / 10) } else { (1, R / 4) };
+    let Some(mut f) = formed(sim_seed, n, &cfg, Renew::None, lat, acc)? else {
         acc.inconclusive += 1;
         return Ok(());
     };
+    acc.tally(if wide { "latency_regime/below_0.9_rtt" } else { "latency_regime/below_rtt_quarter" }, 1);
     // the fault strikes after `skip` further events: the indices of one configuration sweep a window of
     // more than one full rotation of every member
     let mut fr = Rng64::derive(ctx.seed ^ 0x5eed, cfg_idx, fault_idx);
@@ -357,7 +363,7 @@ fn c03_case(ctx: &Ctx, case: u64, acc: &mut Acc) -> Verdict {
                         worst_slack = worst_slack.min((bound - t) as i64 / p as i64);
                         if leave && told_directly.contains(&(i, x)) {
                             // told by the leaver itself: immediate, i.e. in the call handling the farewell (one latency)
-                            ensure!(t <= t_fail + R / 4, "C03/leave-not-immediate", "recipient {i} of the farewell reported MemberDown {}us after the leave", t - t_fail);
+                            ensure!(t <= t_fail + lat.1, "C03/leave-not-immediate", "recipient {i} of the farewell reported MemberDown {}us after the leave", t - t_fail);
                             acc.tally("leave_farewells_acted_on_immediately", 1);
                         }
                     }
